@@ -200,6 +200,29 @@ def canonical_link_order(run, model, rule="R14.1"):
         raise AnalysisIncomplete("link_cores: no local bound from topo_sort")
 
 
+def r14_10(run, model):
+    run.rule("R14.10", "a program of ordinary size survives the trip through a .core file: Core nests one level per `let`, so the function that "
+                       "deserialises a CoreUnit disables serde_json's recursion limit (default 128: about 60 sequential lets)")
+    from lib.mir import Mir
+    mir = Mir(run.facts)
+    sites = {}
+    for c in mir.calls:
+        if not c["file"].startswith("crates/compiler/src/") or "/tests/" in c["file"]:
+            continue
+        if re.search(r"serde_json::(de::)?from_(str|slice|reader)", c["callee"]) and "artifact::CoreUnit" in c["ret"]:
+            sites.setdefault((c["file"], c["caller"]), []).append(("from", c["line"]))
+        if re.search(r"Deserialize<'de> for artifact::CoreUnit>::deserialize", c["callee"]):
+            sites.setdefault((c["file"], c["caller"]), []).append(("explicit", c["line"]))
+    if not sites:
+        raise AnalysisIncomplete("no deserialisation site of artifact::CoreUnit found")
+    unlimited = {(c["file"], c["caller"]) for c in mir.calls if "disable_recursion_limit" in c["callee"]}
+    for (fl, caller), how in sorted(sites.items()):
+        ok = (fl, caller) in unlimited and all(k == "explicit" for k, _ in how)
+        run.ob("R14.10", f"{caller}|core read without recursion limit", ok, site(fl, [how[0][1]]),
+               f"CoreUnit deserialised via {sorted({k for k, _ in how})}; disable_recursion_limit in the same function: {(fl, caller) in unlimited}",
+               witness="a function with 90 sequential lets: build succeeds, link fails with `recursion limit exceeded`; whole-program compilation accepts the program")
+
+
 def r14_8(run, model):
     run.rule("R14.8", "a float literal survives the trip through a .core file: serde_json parses floats exactly only with its `float_roundtrip` "
                       "feature (the default parser may be off by one ulp), so the workspace enables it - or Core does not store floats as "
@@ -232,6 +255,7 @@ def r14_8(run, model):
 
 def run(run, model):
     run.try_rule(r14_8, model)
+    run.try_rule(r14_10, model)
     run.try_rule(r14_5, model)
     from rules import c13
     run.rule("R14.6", "check, build and the whole-program reader see the package's files in one canonical order (shared with C13 R13.5/R13.2)")
